@@ -18,7 +18,9 @@ public:
 
     template<typename T, typename ...Args>
     typename std::enable_if_t<!Runnable::isRunnable<T>::value, void> start(T ptr, Args&&... args) {
-        m_thread = std::thread([&]() {
+        // `ptr` is a parameter of this function: the new thread needs its own copy,
+        // because it may start running after start() has returned
+        m_thread = std::thread([this, ptr = std::move(ptr), &args...]() mutable {
             ptr(std::forward<Args>(args)...);
             m_isFinished = true;
         });
